@@ -17,10 +17,13 @@ structure Quiet (s s' : St) : Prop where
   abs : s'.abs = s.abs
   names : s'.root.innerNames = s.root.innerNames
   rd : RdInv s → RdInv s'
+  tenv : s'.tenv = s.tenv
+  tok : ∀ g R, TOK g R s → TOK g R s'
 
-theorem Quiet.refl (s : St) : Quiet s s := ⟨rfl, rfl, rfl, fun h => h⟩
+theorem Quiet.refl (s : St) : Quiet s s := ⟨rfl, rfl, rfl, fun h => h, rfl, fun _ _ h => h⟩
 theorem Quiet.trans {a b c : St} (h1 : Quiet a b) (h2 : Quiet b c) : Quiet a c :=
-  ⟨by rw [h2.errors, h1.errors], by rw [h2.abs, h1.abs], by rw [h2.names, h1.names], fun h => h2.rd (h1.rd h)⟩
+  ⟨by rw [h2.errors, h1.errors], by rw [h2.abs, h1.abs], by rw [h2.names, h1.names], fun h => h2.rd (h1.rd h),
+   by rw [h2.tenv, h1.tenv], fun g R h => h2.tok g R (h1.tok g R h)⟩
 
 /-- the reads invariant looks only at the counters of the live blocks and at the root's stack -/
 theorem rd_of_fields {s s' : St} (h : RdInv s) (hinner : ∀ b ∈ s'.inner, ∃ b' ∈ s.frames, b.reg = b'.reg)
@@ -33,17 +36,26 @@ theorem rd_of_fields {s s' : St} (h : RdInv s) (hinner : ∀ b ∈ s'.inner, ∃
   · exact h.sync b' hi
   · rfl
 
-theorem drel_same {s s' : St} {ss : SpecSt} (hr : DRel s ss) (q : Quiet s s') (hv : s'.vals = s.vals) : DRel s' ss :=
-  ⟨⟨by unfold ScopeRel; rw [hv]; exact hr.scope.sc, by rw [q.abs, hv]; exact hr.scope.dv⟩,
+theorem drel_same {g : Globals} {R : Ty} {s s' : St} {ss : SpecSt} (hr : DRel g R s ss) (q : Quiet s s') (hv : s'.vals = s.vals) : DRel g R s' ss :=
+  ⟨⟨by unfold ScopeRel; rw [hv]; exact hr.scope.sc, by rw [q.abs, hv]; exact hr.scope.dv,
+    by rw [q.tenv, hv]; exact hr.scope.dk, by rw [q.tenv, q.names]; exact hr.scope.dn⟩,
    by rw [q.abs]; exact hr.out, by rw [q.abs]; exact hr.next,
-   fun n hn => by rw [q.names]; exact hr.reg n (by rw [q.abs] at hn; exact hn), q.rd hr.rd⟩
+   fun n hn => by rw [q.names]; exact hr.reg n (by rw [q.abs] at hn; exact hn), q.rd hr.rd, q.tok g R hr.tok⟩
 
-theorem drel_enter {s s' : St} {ss : SpecSt} (hr : DRel s ss) (q : Quiet s s') (hv : s'.vals = [] :: s.vals) :
-    DRel s' ss.push :=
+theorem drel_enter {g : Globals} {R : Ty} {s s' : St} {ss : SpecSt} (hr : DRel g R s ss) (q : Quiet s s') (hv : s'.vals = [] :: s.vals) :
+    DRel g R s' ss.push :=
   ⟨⟨by unfold ScopeRel; rw [hv]; exact ValsRel.cons (fun _ => rfl) hr.scope.sc,
-    by rw [q.abs, hv]; exact DVals.cons (fun _ => rfl) hr.scope.dv⟩,
+    by rw [q.abs, hv]; exact DVals.cons (fun _ => rfl) hr.scope.dv,
+    by
+      rw [q.tenv, hv]
+      intro fr hfr n v hv'
+      simp only [List.mem_cons] at hfr
+      rcases hfr with rfl | hfr
+      · simp [assocGet] at hv'
+      · exact hr.scope.dk fr hfr n v hv',
+    by rw [q.tenv, q.names]; exact hr.scope.dn⟩,
    by rw [q.abs]; exact hr.out, by rw [q.abs]; exact hr.next,
-   fun n hn => by rw [q.names]; exact hr.reg n (by rw [q.abs] at hn; exact hn), q.rd hr.rd⟩
+   fun n hn => by rw [q.names]; exact hr.reg n (by rw [q.abs] at hn; exact hn), q.rd hr.rd, q.tok g R hr.tok⟩
 
 theorem dvals_tail {decls : List Name} {vs : List (List (Name × Value))} {ds : List (List (Name × Nat))}
     (h : DVals decls vs ds) : DVals decls vs.tail ds.tail := by
@@ -51,24 +63,32 @@ theorem dvals_tail {decls : List Name} {vs : List (List (Name × Value))} {ds : 
   | nil => exact DVals.nil
   | cons _ h => exact h
 
-theorem drel_leave {s s' : St} {ss : SpecSt} (hr : DRel s ss) (q : Quiet s s') (hv : s'.vals = s.vals.tail) :
-    DRel s' ss.pop :=
+theorem drel_leave {g : Globals} {R : Ty} {s s' : St} {ss : SpecSt} (hr : DRel g R s ss) (q : Quiet s s') (hv : s'.vals = s.vals.tail) :
+    DRel g R s' ss.pop :=
   ⟨⟨by unfold ScopeRel; rw [hv]; exact scopeRel_tail hr.scope.sc,
-    by rw [q.abs, hv]; exact dvals_tail hr.scope.dv⟩,
+    by rw [q.abs, hv]; exact dvals_tail hr.scope.dv,
+    by
+      rw [q.tenv, hv]
+      intro fr hfr n v hv'
+      exact hr.scope.dk fr (List.mem_of_mem_tail hfr) n v hv',
+    by rw [q.tenv, q.names]; exact hr.scope.dn⟩,
    by rw [q.abs]; exact hr.out, by rw [q.abs]; exact hr.next,
-   fun n hn => by rw [q.names]; exact hr.reg n (by rw [q.abs] at hn; exact hn), q.rd hr.rd⟩
+   fun n hn => by rw [q.names]; exact hr.reg n (by rw [q.abs] at hn; exact hn), q.rd hr.rd, q.tok g R hr.tok⟩
 
 /-! ### The bookkeeping operations are quiet -/
 
 /-- an instruction the abstract reading ignores and that reads and writes no register -/
-def Instr.skipped (i : Instr) : Prop := (∀ A : AbsSt, abstractStep A i = A) ∧ i.reads = [] ∧ i.writes = none
+def Instr.skipped (i : Instr) : Prop := (∀ A : AbsSt, abstractStep A i = A) ∧ i.reads = [] ∧ i.writes = none ∧
+  (∀ e, tyStepEnv e i = e) ∧ (∀ c f R e, tyStepBad c f R e i = [])
 
-theorem skipped_jumpTo (l : Name) : (Instr.jumpTo l).skipped := ⟨fun _ => rfl, rfl, rfl⟩
-theorem skipped_setLabel (l : Name) : (Instr.setLabel l).skipped := ⟨fun _ => rfl, rfl, rfl⟩
+theorem skipped_jumpTo (l : Name) : (Instr.jumpTo l).skipped := ⟨fun _ => rfl, rfl, rfl, fun _ => rfl, fun _ _ _ _ => rfl⟩
+theorem skipped_setLabel (l : Name) : (Instr.setLabel l).skipped := ⟨fun _ => rfl, rfl, rfl, fun _ => rfl, fun _ _ _ _ => rfl⟩
 
 theorem quiet_push (i : Instr) (hi : i.skipped) (s : St) : Quiet s (s.push i) :=
   ⟨rfl, by rw [abs_push, hi.1], rfl,
-   fun h => rd_push_nowrite h i hi.2.2 (fun q hq => by rw [hi.2.1] at hq; cases hq)⟩
+   fun h => rd_push_nowrite h i hi.2.2.1 (fun q hq => by rw [hi.2.1] at hq; cases hq),
+   by rw [tenv_push, hi.2.2.2.1],
+   fun g R h => tok_push i h (by rw [hi.2.2.2.2]; intro b hb; cases hb)⟩
 
 theorem rootn_pushVia (k : Nat) (i : Instr) (s : St) :
     (s.pushVia k i).root.context = s.root.context ++ [i] ∧ (s.pushVia k i).root.innerNames = s.root.innerNames := by
@@ -76,13 +96,21 @@ theorem rootn_pushVia (k : Nat) (i : Instr) (s : St) :
   cases s.inner <;> exact ⟨rfl, rfl⟩
 
 theorem quiet_pushVia (k : Nat) (i : Instr) (hi : i.skipped) (s : St) : Quiet s (s.pushVia k i) := by
-  refine ⟨(pushVia_fields k i s).1, ?_, (rootn_pushVia k i s).2, ?_⟩
+  have htenv : (s.pushVia k i).tenv = s.tenv := by
+    unfold St.tenv
+    rw [(rootn_pushVia k i s).1, List.foldl_append]
+    exact hi.2.2.2.1 _
+  refine ⟨(pushVia_fields k i s).1, ?_, (rootn_pushVia k i s).2, ?_, htenv, ?_⟩
+  rotate_left 2
+  · intro g R h
+    have hctx : (s.pushVia k i).root.context = (s.push i).root.context := (rootn_pushVia k i s).1
+    exact tok_of_ctx hctx (tok_push i h (by rw [hi.2.2.2.2]; intro b hb; cases hb))
   · unfold St.abs abstractFold
     rw [(rootn_pushVia k i s).1, List.foldl_append]
     exact hi.1 _
   · intro h
     unfold St.pushVia
-    refine rd_push_nowrite (rd_of_fields h ?_ ?_ ?_) i hi.2.2 (fun q hq => by rw [hi.2.1] at hq; cases hq)
+    refine rd_push_nowrite (rd_of_fields h ?_ ?_ ?_) i hi.2.2.1 (fun q hq => by rw [hi.2.1] at hq; cases hq)
     · intro b hb
       unfold St.mapCur at hb
       cases hin : s.inner with
@@ -101,7 +129,7 @@ theorem quiet_probeLabel (stem : Name) (s : St) : Quiet s (s.probeLabel stem).2 
     intro b hb
     simp [St.probeLabel, St.mapFrames] at hb
     obtain ⟨b', hb', rfl⟩ := hb
-    exact ⟨b', mem_frames.mpr (Or.inl hb'), rfl⟩) rfl rfl⟩
+    exact ⟨b', mem_frames.mpr (Or.inl hb'), rfl⟩) rfl rfl, rfl, fun _ _ h => tok_of_ctx rfl h⟩
 
 theorem quiet_enter (s : St) : Quiet s s.enter :=
   ⟨rfl, rfl, rfl, fun h => rd_of_fields h (by
@@ -109,14 +137,15 @@ theorem quiet_enter (s : St) : Quiet s s.enter :=
     simp [St.enter] at hb
     rcases hb with rfl | hb
     · exact ⟨s.cur, cur_mem_frames s, rfl⟩
-    · exact ⟨b, mem_frames.mpr (Or.inl hb), rfl⟩) rfl rfl⟩
+    · exact ⟨b, mem_frames.mpr (Or.inl hb), rfl⟩) rfl rfl, rfl, fun _ _ h => tok_of_ctx rfl h⟩
 
 theorem quiet_leave (s : St) : Quiet s s.leave.2 :=
   ⟨leave_errors s, abs_of_ctx (root_leave_fields s).1, (root_leave_fields s).2.2.1,
    fun h => rd_of_fields h (by
     intro b hb
     obtain ⟨b', hb', _, _, _, _, hr, _⟩ := inner_leave s b hb
-    exact ⟨b', mem_frames.mpr (Or.inl hb'), hr⟩) (root_leave_fields s).2.2.2.2.1 (root_leave_fields s).1⟩
+    exact ⟨b', mem_frames.mpr (Or.inl hb'), hr⟩) (root_leave_fields s).2.2.2.2.1 (root_leave_fields s).1,
+   tenv_of_ctx (root_leave_fields s).1, fun _ _ h => tok_of_ctx (root_leave_fields s).1 h⟩
 
 theorem quiet_ifLabels (le : Option Name) (s : St) : Quiet s (ifLabels le s).2.2.2 := by
   unfold ifLabels
@@ -195,20 +224,20 @@ theorem forbidden_id (rc bc cc : Bool) (s : St) (h : (forbidden rc bc cc s).erro
   cases rc <;> cases bc <;> cases cc <;> simp [forbidden, St.addErr] at h ⊢
 
 /-- construct-level preservation, including the number of live blocks -/
-def CtD (f : St → St) (F : SpecSt → SpecSt) : Prop :=
-  ∀ s ss, DRel s ss → (f s).errors = s.errors → DRel (f s) (F ss) ∧ (f s).inner.length = s.inner.length
+def CtD (g : Globals) (R : Ty) (f : St → St) (F : SpecSt → SpecSt) : Prop :=
+  ∀ s ss, DRel g R s ss → (f s).errors = s.errors → DRel g R (f s) (F ss) ∧ (f s).inner.length = s.inner.length
 
-theorem ctd_of_std {f : St → St} {F : SpecSt → SpecSt} (h : StD f F) (hs : ∀ s, ESteps s (f s)) : CtD f F :=
+theorem ctd_of_std {g : Globals} {R : Ty} {f : St → St} {F : SpecSt → SpecSt} (h : StD g R f F) (hs : ∀ s, ESteps s (f s)) : CtD g R f F :=
   fun s ss hr he => ⟨h s ss hr he, (hs s).inner_len⟩
 
 /-- one statement of a body followed by the rest of the body -/
-theorem body_step {s s1 sf : St} {ss ss1 ssF : SpecSt} (rc bc cc : Bool) (hr : DRel s ss)
+theorem body_step {g : Globals} {R : Ty} {s s1 sf : St} {ss ss1 ssF : SpecSt} (rc bc cc : Bool) (hr : DRel g R s ss)
     (x1 : ∃ Δ, s1.errors = (forbidden rc bc cc s).errors ++ Δ) (x2 : ∃ Δ, sf.errors = s1.errors ++ Δ)
     (he : sf.errors = s.errors)
-    (hstmt : DRel (forbidden rc bc cc s) ss → s1.errors = (forbidden rc bc cc s).errors →
-      DRel s1 ss1 ∧ s1.inner.length = (forbidden rc bc cc s).inner.length)
-    (ih : DRel s1 ss1 → sf.errors = s1.errors → DRel sf ssF ∧ sf.inner.length = s1.inner.length) :
-    DRel sf ssF ∧ sf.inner.length = s.inner.length := by
+    (hstmt : DRel g R (forbidden rc bc cc s) ss → s1.errors = (forbidden rc bc cc s).errors →
+      DRel g R s1 ss1 ∧ s1.inner.length = (forbidden rc bc cc s).inner.length)
+    (ih : DRel g R s1 ss1 → sf.errors = s1.errors → DRel g R sf ssF ∧ sf.inner.length = s1.inner.length) :
+    DRel g R sf ssF ∧ sf.inner.length = s.inner.length := by
   obtain ⟨e0, e1, e2⟩ := chain3 (esteps_forbidden rc bc cc s).errors_ext x1 x2 he
   have hid := forbidden_id rc bc cc s e0
   rw [hid] at hstmt e1
@@ -218,10 +247,10 @@ theorem body_step {s s1 sf : St} {ss ss1 ssF : SpecSt} (rc bc cc : Bool) (hr : D
 
 /-! ### Prologue of `if_condition` -/
 
-theorem den_ifPrologue {g : Globals} {rg : RGlobals} (hg : GlobRel g rg) (hn : GNames g) (cond : IfCond) (dup isElse : Bool)
-    (le : Option Name) (s : St) (ss : SpecSt) (hr : DRel s ss)
+theorem den_ifPrologue {g : Globals} {R : Ty} {rg : RGlobals} (hg : GlobRel g rg) (hn : GNames g) (cond : IfCond) (dup isElse : Bool)
+    (le : Option Name) (s : St) (ss : SpecSt) (hr : DRel g R s ss)
     (he : (ifPrologue g cond dup isElse le s).2.2.errors = s.errors) :
-    DRel (ifPrologue g cond dup isElse le s).2.2 (specIfCond false cond ss.push) ∧
+    DRel g R (ifPrologue g cond dup isElse le s).2.2 (specIfCond false cond ss.push) ∧
     (ifPrologue g cond dup isElse le s).2.2.inner.length = s.inner.length + 1 := by
   unfold ifPrologue at he ⊢
   dsimp only at he ⊢
@@ -248,18 +277,18 @@ theorem den_ifPrologue {g : Globals} {rg : RGlobals} (hg : GlobRel g rg) (hn : G
   obtain ⟨e1, e2⟩ := chain2 x1 x2 he
   have hs0 : s0 = s := hdup (by rw [← f1.1]; exact e1)
   subst hs0
-  have r1 : DRel s1 ss.push := drel_enter hr q1 f1.2.1
+  have r1 : DRel g R s1 ss.push := drel_enter hr q1 f1.2.1
   have r2 := den_ifCondCalc hg hn cond lBegin lElse lEnd isElse s1 ss.push r1 e2
   refine ⟨drel_same r2 (quiet_push _ (skipped_setLabel _) _) (vals_push _ _), ?_⟩
   rw [(push_fields _ _).2, (esteps_ifCondCalc g cond lBegin lElse lEnd isElse s1).inner_len, f1.2.2]
 
 /-! ### `loop_statement` around its statement loop -/
 
-theorem den_loopWrap (k : Name → Name → Bool → Bool → Bool → St → St × Bool) (K : SpecSt → SpecSt)
+theorem den_loopWrap {g : Globals} {R : Ty} (k : Name → Name → Bool → Bool → Bool → St → St × Bool) (K : SpecSt → SpecSt)
     (hx : ∀ lb le rc bc cc s, Steps s (k lb le rc bc cc s).1)
-    (hk : ∀ lb le s ss, DRel s ss → (k lb le false false false s).1.errors = s.errors →
-      DRel (k lb le false false false s).1 (K ss) ∧ (k lb le false false false s).1.inner.length = s.inner.length) :
-    CtD (loopWrap k) (fun ss => (K ss.push).pop) := by
+    (hk : ∀ lb le s ss, DRel g R s ss → (k lb le false false false s).1.errors = s.errors →
+      DRel g R (k lb le false false false s).1 (K ss) ∧ (k lb le false false false s).1.inner.length = s.inner.length) :
+    CtD g R (loopWrap k) (fun ss => (K ss.push).pop) := by
   intro s ss hr he
   unfold loopWrap at he ⊢
   dsimp only at he ⊢
@@ -291,11 +320,11 @@ theorem den_loopWrap (k : Name → Name → Bool → Bool → Bool → St → St
   rw [l2, f1.2.2] at this
   omega
 
-variable {g : Globals} {rg : RGlobals}
+variable {g : Globals} {R : Ty} {rg : RGlobals}
 
 mutual
 theorem den_ifCondition (hg : GlobRel g rg) (hn : GNames g) : ∀ (i : IfStmt) (le : Option Name) (ll : Option (Name × Name)),
-    IfStmt.anaOK ll.isSome i = true → CtD (ifCondition g i le ll) (specIf false rg i)
+    IfStmt.anaOK ll.isSome i = true → CtD g R (ifCondition g i le ll) (specIf false rg i)
   | .mk cond body els elif, labelEnd, labelLoop => by
     intro hok s ss hr he
     unfold IfStmt.anaOK at hok
@@ -347,9 +376,9 @@ theorem den_ifCondition (hg : GlobRel g rg) (hn : GNames g) : ∀ (i : IfStmt) (
     obtain ⟨r2, l2⟩ := h2 r1 e2
     have hne2 : s2.inner ≠ [] := inner_ne_of_len (by rw [l2, l1])
     have f3' := f3 hne2
-    have r3 : DRel s3 (specBodies false rg body (specIfCond false cond ss.push)).pop := drel_leave r2 q3 f3'.2.1
+    have r3 : DRel g R s3 (specBodies false rg body (specIfCond false cond ss.push)).pop := drel_leave r2 q3 f3'.2.1
     have l3 : s3.inner.length = s.inner.length := by have := f3'.2.2; rw [l2, l1] at this; omega
-    suffices hmain : DRel (match els, elif with
+    suffices hmain : DRel g R (match els, elif with
         | some eb, _ => ifAfterElse k (ifBodies g eb lEnd labelLoop s3.enter).2 lEnd (ifBodies g eb lEnd labelLoop s3.enter).1
         | none, some ei => ifCondition g ei (some lEnd) labelLoop s3
         | none, none => s3)
@@ -395,8 +424,8 @@ theorem den_ifCondition (hg : GlobRel g rg) (hn : GNames g) : ∀ (i : IfStmt) (
         exact ⟨r5, by rw [l5, l3]⟩
       | none => exact ⟨r3, l3⟩
 theorem den_ifBodies (hg : GlobRel g rg) (hn : GNames g) : ∀ (b : IfBodies) (lEnd : Name) (ll : Option (Name × Name)),
-    IfBodies.anaOK ll.isSome b = true → ∀ s ss, DRel s ss → (ifBodies g b lEnd ll s).1.errors = s.errors →
-      DRel (ifBodies g b lEnd ll s).1 (specBodies false rg b ss) ∧ (ifBodies g b lEnd ll s).1.inner.length = s.inner.length
+    IfBodies.anaOK ll.isSome b = true → ∀ s ss, DRel g R s ss → (ifBodies g b lEnd ll s).1.errors = s.errors →
+      DRel g R (ifBodies g b lEnd ll s).1 (specBodies false rg b ss) ∧ (ifBodies g b lEnd ll s).1.inner.length = s.inner.length
   | .ifb l, lEnd, ll => by
     intro hok s ss hr he
     unfold IfBodies.anaOK at hok
@@ -413,8 +442,8 @@ theorem den_ifBodies (hg : GlobRel g rg) (hn : GNames g) : ∀ (b : IfBodies) (l
   | .loopb _, _, none => by
     intro hok; unfold IfBodies.anaOK at hok; simp at hok
 theorem den_ifBody (hg : GlobRel g rg) (hn : GNames g) : ∀ (l : List IfBodyStmt) (lEnd : Name) (ll : Option (Name × Name)) (rc : Bool),
-    IfBodyStmt.anaOKL ll.isSome l = true → ∀ s ss, DRel s ss → (ifBody g l lEnd ll rc s).1.errors = s.errors →
-      DRel (ifBody g l lEnd ll rc s).1 (specIfBody false rg l ss) ∧ (ifBody g l lEnd ll rc s).1.inner.length = s.inner.length
+    IfBodyStmt.anaOKL ll.isSome l = true → ∀ s ss, DRel g R s ss → (ifBody g l lEnd ll rc s).1.errors = s.errors →
+      DRel g R (ifBody g l lEnd ll rc s).1 (specIfBody false rg l ss) ∧ (ifBody g l lEnd ll rc s).1.inner.length = s.inner.length
   | [], _, _, _ => by
     intro _ s ss hr _
     unfold ifBody specIfBody
@@ -458,7 +487,7 @@ theorem den_ifBody (hg : GlobRel g rg) (hn : GNames g) : ∀ (l : List IfBodyStm
       unfold specIfBody
       dsimp only at he ⊢
       have x1 := (steps_nestedReturn g e (forbidden rc false false s)).errors_ext
-      have h1 := fun hr he => den_nestedReturn hg hn e (forbidden rc false false s) ss hr he
+      have h1 := fun hr he => den_nestedReturn (R := R) hg hn e (forbidden rc false false s) ss hr he
       have l1 := nestedReturn_len (g := g) e (forbidden rc false false s)
       generalize nestedReturn g e (forbidden rc false false s) = q at he x1 h1 l1 ⊢
       obtain ⟨s1, r⟩ := q
@@ -466,8 +495,8 @@ theorem den_ifBody (hg : GlobRel g rg) (hn : GNames g) : ∀ (l : List IfBodyStm
       exact body_step rc false false hr x1 (steps_ifBody g tl lEnd ll (rc || r) s1).errors_ext he
         (fun hr he => ⟨h1 hr he, l1⟩) (den_ifBody hg hn tl lEnd ll (rc || r) hok _ _)
 theorem den_ifLoopBody (hg : GlobRel g rg) (hn : GNames g) : ∀ (l : List IfLoopStmt) (lEnd lb le : Name) (rc bc cc : Bool),
-    IfLoopStmt.anaOKL l = true → ∀ s ss, DRel s ss → (ifLoopBody g l lEnd lb le rc bc cc s).1.errors = s.errors →
-      DRel (ifLoopBody g l lEnd lb le rc bc cc s).1 (specIfLoopBody false rg l ss) ∧
+    IfLoopStmt.anaOKL l = true → ∀ s ss, DRel g R s ss → (ifLoopBody g l lEnd lb le rc bc cc s).1.errors = s.errors →
+      DRel g R (ifLoopBody g l lEnd lb le rc bc cc s).1 (specIfLoopBody false rg l ss) ∧
       (ifLoopBody g l lEnd lb le rc bc cc s).1.inner.length = s.inner.length
   | [], _, _, _, _, _, _ => by
     intro _ s ss hr _
@@ -514,7 +543,7 @@ theorem den_ifLoopBody (hg : GlobRel g rg) (hn : GNames g) : ∀ (l : List IfLoo
       unfold specIfLoopBody
       dsimp only at he ⊢
       have x1 := (steps_nestedReturn g e (forbidden rc bc cc s)).errors_ext
-      have h1 := fun hr he => den_nestedReturn hg hn e (forbidden rc bc cc s) ss hr he
+      have h1 := fun hr he => den_nestedReturn (R := R) hg hn e (forbidden rc bc cc s) ss hr he
       have l1 := nestedReturn_len (g := g) e (forbidden rc bc cc s)
       generalize nestedReturn g e (forbidden rc bc cc s) = q at he x1 h1 l1 ⊢
       obtain ⟨s1, r⟩ := q
@@ -534,8 +563,8 @@ theorem den_ifLoopBody (hg : GlobRel g rg) (hn : GNames g) : ∀ (l : List IfLoo
         (fun hr _ => ⟨drel_same hr (quiet_push _ (skipped_jumpTo _) _) (vals_push _ _), (push_fields _ _).2⟩)
         (den_ifLoopBody hg hn tl lEnd lb le rc true cc hok _ _)
 theorem den_loopBody (hg : GlobRel g rg) (hn : GNames g) : ∀ (l : List LoopStmt) (lb le : Name) (rc bc cc : Bool),
-    LoopStmt.anaOKL l = true → ∀ s ss, DRel s ss → (loopBody g l lb le rc bc cc s).1.errors = s.errors →
-      DRel (loopBody g l lb le rc bc cc s).1 (specLoopBody false rg l ss) ∧
+    LoopStmt.anaOKL l = true → ∀ s ss, DRel g R s ss → (loopBody g l lb le rc bc cc s).1.errors = s.errors →
+      DRel g R (loopBody g l lb le rc bc cc s).1 (specLoopBody false rg l ss) ∧
       (loopBody g l lb le rc bc cc s).1.inner.length = s.inner.length
   | [], _, _, _, _, _ => by
     intro _ s ss hr _
@@ -582,7 +611,7 @@ theorem den_loopBody (hg : GlobRel g rg) (hn : GNames g) : ∀ (l : List LoopStm
       unfold specLoopBody
       dsimp only at he ⊢
       have x1 := (steps_nestedReturn g e (forbidden rc bc cc s)).errors_ext
-      have h1 := fun hr he => den_nestedReturn hg hn e (forbidden rc bc cc s) ss hr he
+      have h1 := fun hr he => den_nestedReturn (R := R) hg hn e (forbidden rc bc cc s) ss hr he
       have l1 := nestedReturn_len (g := g) e (forbidden rc bc cc s)
       generalize nestedReturn g e (forbidden rc bc cc s) = q at he x1 h1 l1 ⊢
       obtain ⟨s1, r⟩ := q
